@@ -160,7 +160,7 @@ def e2e_round(binp, d, how, hold_s):
             res["send_error"] = repr(ex)
         # net/http's Shutdown notices that the shell's connection has ended by polling (interval grows to 500 ms while the shell lives):
         # a line entered inside that window is the subject of known finding one-shell-line-within-shutdown-poll ("quick" rounds below)
-        pump(None, 0.03 if how == "quick-line" else (0.4 if hold_s < 1 else 1.2))
+        pump(None, 0.03 if how == "quick-line" else 1.2)
         if how == "tab":
             os.write(master, b"\t"); pump(None, 0.4)  # Tab: insert the source (nobody is there to take it any more)
         os.write(master, b"\r")                      # the operator's next entered line
